@@ -93,7 +93,15 @@ pub fn run(ctx: &Ctx) -> i32 {
                     continue;
                 }
                 let is_base = cfg == base;
-                let cell_choices = if is_base || (thorough && k <= 4) { vec![0, 1, 2] } else { vec![0] };
+                let wide = m.def.cols > 8;
+                let cell_choices = if wide {
+                    // wide members: every cell only under the base configuration (quick: k <= 3, one choice)
+                    if is_base && (thorough || k <= 3) { if thorough { vec![0, 1, 2] } else { vec![0] } } else { vec![] }
+                } else if is_base || (thorough && k <= 4) {
+                    vec![0, 1, 2]
+                } else {
+                    vec![0]
+                };
                 let choices = vec![0, 1, 2];
                 blocks.push(Block { m: mi, k, cfg, choices, cell_choices });
             }
@@ -111,7 +119,7 @@ pub fn run(ctx: &Ctx) -> i32 {
     let variant = crate::variant_name();
     ctx.finish(Finish {
         level: "fault_enumeration",
-        rule: "model-STARK family (20 definitions: 1/2/3/8 columns, 0/1/3 public inputs, constraint degree 0,1,2,3,4,5,9, first/last/transition/every-row terms) x trace length 2^k (k = 2..4 quick, 2..6 thorough) x StarkConfig lattice (rate_bits 1..3, cap 0/1, num_challenges 1..3, five FRI reduction strategies; quick: base + all single-axis deviations, thorough: full product) x { honest trace for 3 public-input choices; every single cell x {v+1, 0}; every public input +1 verifier-side and consistently; every numeric leaf +1 and every list drop-last / duplicate-last / null of an accepted proof (verdict floor q*log2(lde) >= 40); proof of A under every equal-shape B }. Expected verdict = independent row-by-row trace checker. states = cases, transitions = prove / verify calls, traces_validated = cases whose verdict was compared with the trace checker",
+        rule: "model-STARK family (24 definitions: 1/2/3/8 columns and four wide ones with 9/13/16/26 columns (several simulated opening points in the constraint-binding step), 0/1/3 public inputs, constraint degree 0,1,2,3,4,5,9, first/last/transition/every-row terms) x trace length 2^k (k = 2..4 quick, 2..6 thorough) x StarkConfig lattice (rate_bits 1..3, cap 0/1, num_challenges 1..3, five FRI reduction strategies; quick: base + all single-axis deviations, thorough: full product) x { honest trace for 3 public-input choices; every single cell x {v+1, 0}; every public input +1 verifier-side and consistently; every numeric leaf +1 and every list drop-last / duplicate-last / null of an accepted proof (verdict floor q*log2(lde) >= 40); proof of A under every equal-shape B }. Expected verdict = independent row-by-row trace checker. states = cases, transitions = prove / verify calls, traces_validated = cases whose verdict was compared with the trace checker",
         exhaustive: true,
         assumptions: vec![
             "a wrong proof that the verifier accepts with probability <= 2^-100 (quotient identity at an extension-field zeta) is not observable; tamper cases use q*log2(lde) >= 40".into(),
